@@ -180,11 +180,16 @@ def pairing_tasks(P):
                                    "this_is_the_partner", "partner(i) == j and gpartner(j) == i",
                                    "the_estimate_sits_right_after_the_unpaired_earlier_ones",
                                    f"{EW}[i - paired_before(i)] is est_object and forall(p, 0, i - paired_before(i), {EW}[p] is not est_object)")},
-                               ensures=E("paired_iff_same_uuid_in_the_same_camera_each_object_once", pairs("result", nE),
+                               # top-level postconditions do not prescribe the ORDER of the results (the statement does not): the positional facts live in the invariants
+                               ensures=E("every_same_uuid_same_camera_couple_is_a_pair",
+                                         f"forall(k, 0, {nE}, implies(partner(k) >= 0, exists(p, 0, len(result), result[p].estimated_object is {E_}[k] and result[p].ground_truth_object is {G_}[partner(k)])))",
+                                         "nothing_else_is_paired_and_each_object_is_used_once",
+                                         # as many results with a ground truth as there are couples (one each by the clause above), the rest - if reported at all - without ground truth
+                                         f"(len(result) == paired_before({nE}) or len(result) == {nE}) and forall(p, paired_before({nE}), len(result), result[p].ground_truth_object is None)",
                                          # whether unpaired estimates are reported at all (they are not when a traffic-light camera leftover remains) is not part of the
-                                         # property: what is stated is "each object at most once", so IF they are reported, each once, without ground truth, after the pairs
+                                         # property: what is stated is "each object at most once", so IF they are reported, each once, without ground truth
                                          "unpaired_estimates_if_reported_then_once_each_without_ground_truth",
-                                         f"(len(result) == paired_before({nE}) or len(result) == {nE}) and implies(len(result) == {nE}, forall(k, 0, {nE}, implies(partner(k) < 0, "
+                                         f"implies(len(result) == {nE}, forall(k, 0, {nE}, implies(partner(k) < 0, "
                                          f"result[paired_before({nE}) + k - paired_before(k)].estimated_object is {E_}[k] and result[paired_before({nE}) + k - paired_before(k)].ground_truth_object is None)))",
                                          "inputs_untouched", untouched)),
              extra_contracts={idx.lookup(f"{OR}:DynamicObjectWithPerceptionResult.__init__").fq: C01.result_ctor_contract(),
